@@ -23,6 +23,7 @@ from vf.props import c15
 CASE = None
 ACTION_R = -1
 ACTION_F = -2
+ACTION_B = -3
 HERE = os.path.dirname(os.path.dirname(os.path.dirname(os.path.abspath(__file__))))
 
 
@@ -56,6 +57,11 @@ CORPUS = [
     ("[-0.0, 1, 'x', (1,)]", {}),
     ("[0.0, True, 'x', (1.0,)]", {}),
     ("[1.0, 0, b'x', (True,)]", {}),
+    # the tzinfo of a localized pytz datetime (a non-canonical DstTzInfo) - possibly the first pytz value printed
+    ("pytz.timezone('Europe/Helsinki').localize(datetime.datetime(2020, 7, 1, 12))", {}),
+    ("[pytz.utc, pytz.timezone('US/Eastern'), pytz.FixedOffset(60)]", {}),
+    # values handled by printers that action B makes fail once on another value
+    ("[types.SimpleNamespace(a=1, b=[2]), collections.Counter('abracadabra')]", {}),
     # a ChainMap whose first layer creates missing keys on lookup
     ("collections.ChainMap(collections.defaultdict(int, {'a': 5}), {'a': 1, 'b': 2, 'c': 3})", {}),
     ("[collections.defaultdict(list, {'k': [1]}), collections.Counter({'x': 2})]", {}),
@@ -75,6 +81,19 @@ class Flaky:
 
 FLAKY = Flaky()
 FLAKY_INDEX = len(CORPUS) - 1
+
+
+def action_bad_values(ns):
+    """Action B of a history: legal values on which bundled printers fail
+    internally (repr fallback + warning) are printed."""
+    import types
+    import collections
+    bad = types.SimpleNamespace(a=1)
+    bad.__dict__[2] = 3                     # sorted() of mixed keys fails inside the printer
+    with warnings.catch_warnings():
+        warnings.simplefilter('ignore')
+        PKG.pformat(bad)
+        PKG.pformat([collections.Counter({'a': 1, 'b': 'many'}), bad])
 
 
 def action_fail(ns):
@@ -196,7 +215,7 @@ class HistoryCase(base.CaseBase):
         super().__init__(params)
         self.baselines = params['baselines']
         # the last "index" of the full alphabet is the registration action R
-        self.indices = params.get('indices') or (list(range(len(CORPUS))) + [ACTION_F, ACTION_R])
+        self.indices = params.get('indices') or (list(range(len(CORPUS))) + [ACTION_B, ACTION_F, ACTION_R])
         self.k = params['k']
         self.first = params.get('first')
         self.slice = params.get('slice', 'default')
@@ -207,7 +226,7 @@ class HistoryCase(base.CaseBase):
 
     def pre(self, hist, target, w, rw):
         n = len(self.indices)
-        ntargets = n - 2 if self.indices[-1] == ACTION_R else n     # the actions are never a target
+        ntargets = n - 3 if self.indices[-1] == ACTION_R else n     # the actions are never a target
         if not (0 <= target and target < ntargets):
             return False
         for j, h in enumerate(hist):
@@ -237,7 +256,7 @@ class HistoryCase(base.CaseBase):
 
     def execute(self, hs, t, w, rw):
         reset_all()
-        describe = lambda: 'history=%r (index -1 = register a printer by name for RecBase, -2 = a print aborted by an exception) target=%r (%s)' % (
+        describe = lambda: 'history=%r (index -1 = register a printer by name for RecBase, -2 = a print aborted by an exception, -3 = prints of values on which bundled printers fail) target=%r (%s)' % (
             hs, t, CORPUS[t][0][:60])
         try:
             with warnings.catch_warnings():
@@ -255,6 +274,10 @@ class HistoryCase(base.CaseBase):
                     if i == ACTION_R:
                         action_register()
                         registered = True
+                        continue
+                    if i == ACTION_B:
+                        with NoTracing():
+                            action_bad_values(self.ns)
                         continue
                     if i == ACTION_F:
                         # the aborted print uses the very object a later target may print again
@@ -351,7 +374,7 @@ def replay_case(task):
 
 def cases(tier, seed):
     baselines = fresh_baselines()
-    n = len(CORPUS) + 2          # + the two actions
+    n = len(CORPUS) + 3          # + the three actions
     out = []
     out.append({'name': 'k0:all-targets', 'family': 'history',
                 'params': {'k': 0, 'baselines': baselines, 'traced': True}, 'budget': 200.0, 'twin': True})
